@@ -1,19 +1,22 @@
 (* C32 modelrun: replay each case through the extracted Model.LSDB.step and compare, token by token,
    with the implementation's database (sequence number, remaining lifetime, SRM and SSN interfaces of
    every entry), its sequence counter, the update-request flag and what the LSP / PSNP senders sent. *)
-let id_of_int (i : int) : lspid = { sys = n_of_int (i / 2 + 1); pn = n_of_int (i mod 2) }
-let int_of_id (k : lspid) : int = (int_of_n k.sys - 1) * 2 + int_of_n k.pn
+(* ids in traces: three digits <system><pseudonode><LSP number> *)
+let id_of_int (i : int) : lspid = { sys = n_of_int (i / 100); pn = n_of_int ((i / 10) mod 10); num = n_of_int (i mod 10) }
+let int_of_id (k : lspid) : int = int_of_n k.sys * 100 + int_of_n k.pn * 10 + int_of_n k.num
 
+(* entries of all LSP entries TLVs of an SNP ('|' separates TLVs), in order: what GetLSPEntries returns *)
 let parse_entries (s : string) : ((lspid * n) * n) list =
   if s = "-" then [] else
     List.map (fun t ->
       match String.split_on_char '.' t with
       | [i; sq; lt] -> ((id_of_int (int_of_string i), n_of_int (int_of_string sq)), n_of_int (int_of_string lt))
-      | _ -> failwith ("bad entry " ^ t)) (String.split_on_char ',' s)
+      | _ -> failwith ("bad entry " ^ t))
+      (List.concat_map (String.split_on_char ',') (String.split_on_char '|' s))
 
 let bound (s : string) : lspid =
-  if s = "a" then { sys = N0; pn = N0 }
-  else if s = "z" then { sys = n_of_int 0xffffffffffff; pn = n_of_int 255 }
+  if s = "a" then { sys = N0; pn = N0; num = N0 }
+  else if s = "z" then { sys = n_of_int 0xffffffffffff; pn = n_of_int 255; num = n_of_int 255 }
   else id_of_int (int_of_string s)
 
 let rest t = String.sub t 1 (String.length t - 1)
@@ -86,6 +89,13 @@ let () =
                         Printf.sprintf "%d.%d" (int_of_id k) (int_of_n sq)) es)))) (psnps_to_send !s)) in
              extra := "/" ^ (if l = [] then "none" else String.concat ";" l);
              s := step !s SendPSNPs
+           | 'B' ->
+             let l = List.sort compare (List.map (fun (i, es) ->
+                 Printf.sprintf "%d>[a-z]%s" (int_of_nat i)
+                   (String.concat "+" (List.sort compare (List.map (fun (k, sq) ->
+                        Printf.sprintf "%d.%d" (int_of_id k) (int_of_n sq)) es)))) (csnps_to_send !s)) in
+             extra := "/" ^ (if l = [] then "none" else String.concat ";" l);
+             s := step !s SendCSNPs
            | _ -> failwith ("bad token " ^ t));
           let mo = obs !s !extra in
           let io = List.nth obsv i in
